@@ -63,6 +63,10 @@ def instances(tier):
         # the damaged frame is followed, in the same segment, by the beginning of a frame that never completes on that connection
         out.append({"kind": "rx", "gen": g, "payload": 2, "where": "crc", "trailing": True})
         out.append({"kind": "rx", "gen": g, "payload": 2, "where": "data", "trailing": True})
+        # closing the connection that carried the damaged frame reports an error itself (the console answered with a reset, the
+        # peer has vanished): the connection is re-established all the same
+        out.append({"kind": "rx", "gen": g, "payload": 2, "where": "crc", "close_error": True})
+        out.append({"kind": "rx", "gen": g, "payload": 0, "where": "type", "close_error": True})
         for where in ("addr", "data", "crc"):
             # history: the intact frame is received first, its damaged copy right behind it
             out.append({"kind": "rx", "gen": g, "payload": 2, "where": where, "after_good": True})
@@ -222,6 +226,9 @@ def _run_rx(ctx, p):
         with Rig(ctx, g) as rig:
             def on_accept(conn):
                 if conn.index == 0:
+                    if p.get("close_error"):
+                        conn.wait_closed_exc = (ConnectionResetError(104, "Connection reset by peer"), TimeoutError(110, "Connection timed out"),
+                                                OSError(113, "No route to host"))[ctx.choice("close_exc", 3)]
                     if p.get("after_good"):
                         conn.send(SymBytes(list(good)) if ctx.symbolic else bytes(good))
                     conn.send(SymBytes(bad) if ctx.symbolic else bytes(bad))
